@@ -26,7 +26,7 @@ REPO = "/repo"
 ALT_REPO = os.environ.get("VERIF_ALT_REPO")
 if ALT_REPO:
     REPO = ALT_REPO.rstrip("/")
-    _ALT = "/tmp/verif-alt"
+    _ALT = os.environ.get("VERIF_ALT_DIR", "/tmp/verif-alt")
     HARNESS_SRC, HARNESS = HARNESS, os.path.join(_ALT, "harness")
     WORK, EVID = os.path.join(_ALT, "work"), os.path.join(_ALT, "evidence")
     for _d in (HARNESS, WORK, EVID):
